@@ -354,6 +354,26 @@ class Lexer:
                 lens = [len(a["pat"].get("prefix", [])) for a in m["arms"] if a["pat"].get("k") == "Slice"]
                 if lens[:3] == [2, 2, 1]:
                     ok = True
+        # the same decision read by evaluation: the closure returned by symbol_op_or_op_equals applied to short inputs
+        try:
+            ipx = I.Interp(f, max_depth=8, extern={"other_token_chars": lambda a: I.Enum("Result", "Err", {"0": I.Opaque("other")})})
+            A, B, C, EOF = (I.Enum("Token", "Plus"), I.Enum("Token", "PlusEquals"), I.Enum("Token", "PlusPlus"), I.Enum("Token", "Eof"))
+
+            def lexed(clo, text):
+                r = ipx.call_callable(clo, [list(text.encode())], 0)
+                if isinstance(r, I.Enum) and r.variant == "Ok":
+                    rest, tok = r.fields["0"]
+                    return (tok.variant, bytes(rest).decode())
+                return "Err"
+            clo = ipx.apply(opeq, [43, A, B, C])
+            got = [lexed(clo, s) for s in ("+=x", "++x", "+x", "+", "-+", "")]
+            want = [("PlusEquals", "x"), ("PlusPlus", "x"), ("Plus", "x"), ("Plus", ""), "Err", "Err"]
+            clo2 = ipx.apply(opeq, [43, A, EOF, EOF])
+            got2 = [lexed(clo2, s) for s in ("+=", "++")]
+            want2 = [("Plus", "="), ("Plus", "+")]
+            ok = got == want and got2 == want2
+        except (I.Unknown, KeyError, TypeError, AttributeError, IndexError):
+            pass
         chk.ob("C09.lexer/maximal-munch", ok, "symbol_op_or_op_equals tries `c=` and `cc` before `c`" if ok else
                "symbol_op_or_op_equals no longer tries the two-character forms before the one-character form",
                where(opeq))
